@@ -31,6 +31,7 @@ structure Header where
   sre : Bool
   prevStateRoot : Nat
   wit : Nat
+  primary : Nat := 0          -- PrimaryIndex (inside the hash; read only by GAS.OnPersist)
 deriving DecidableEq, Repr
 
 /-- A transaction as the scratch pool sees it. `id` = hash (independent of `wit`). -/
@@ -63,7 +64,10 @@ structure Env (L : Type) where
   rootOf : L → Nat                          -- local state root
   keep : L → Tx → Bool                      -- IsTxStillRelevant for a pooled tx after the block
   spoil : L → Block → L                     -- the ledger after storeBlock executed the block, applied the MPT
-                                            -- batch (stateroot.AddMPTBatch works on the live trie's nodes) and then failed
+                                            -- batch (stateroot.AddMPTBatch works on the live trie's nodes; the
+                                            -- notification handler appends to stored token transfer logs in place,
+                                            -- dao.GetTokenTransferLog / TokenTransferLog.Append) and then failed
+  nvals : Nat := 1024                       -- number of next-block validators (NEO.GetNextBlockValidatorsInternal)
 
 /-- The node. `headers[i]` is the stored header of index `i`; header height = length - 1. -/
 structure Node (L : Type) where
@@ -185,17 +189,25 @@ def commit (env : Env L) (s : Node L) (b : Block) (l' : L) : Node L :=
       headers := s.headers.set b.hdr.index b.hdr,     -- StoreAsBlock rewrites the record under the block hash
       pool := s.pool.filter (fun q => !(b.txs.any (fun t => t.id == q.id)) && env.keep l' q) }
 
+/-- GAS.OnPersist (pkg/core/native/native_gas.go:109-131) pays the network fees of a block that has
+transactions to `validators[PrimaryIndex]`: an index beyond the validator list makes the persisting
+script fail (nothing is written). No other code checks the range of PrimaryIndex; a block without
+transactions passes with any value. -/
+def primaryOK (env : Env L) (b : Block) : Bool := b.txs.isEmpty || decide (b.hdr.primary < env.nvals)
+
 /-- storeBlock as far as acceptance is concerned: execution, then the check of the next known
 header's PrevStateRoot, then the commit. The check comes after stateRoot.AddMPTBatch, which has
 already changed the in-memory trie in place: when it fails nothing is committed, but the ledger the
-node works with is no longer the one it had (`spoil`; DESIGN §6 item 11, known finding
-failed-store-corrupts-trie). -/
+node works with is no longer the one it had (`spoil`; DESIGN §6 item 11, known findings
+failed-store-corrupts-trie and failed-store-corrupts-transfer-log). -/
 def storeBlock (env : Env L) (s : Node L) (b : Block) : Node L × Option Err :=
-  match env.apply s.ledger b with
-  | none => (s, some .store)
-  | some l' =>
-    if nextHeaderOK env s b.hdr.index l' then (commit env s b l', none)
-    else ({ s with ledger := env.spoil s.ledger b }, some .store)
+  if !primaryOK env b then (s, some .store)
+  else
+    match env.apply s.ledger b with
+    | none => (s, some .store)
+    | some l' =>
+      if nextHeaderOK env s b.hdr.index l' then (commit env s b l', none)
+      else ({ s with ledger := env.spoil s.ledger b }, some .store)
 
 /-- AddBlock's header step: the header is either the next one (verify and record it) or already
 known. Then its hash is compared with the recorded one and, unless the witness is the recorded
@@ -237,21 +249,23 @@ def addBlock (env : Env L) (s : Node L) (b : Block) : Node L × Option Err :=
     | (s1, some e) => (s1, some e)
     | (s1, none) => bodyStep env s1 b
 
-/-! ### the Merkle root function (pkg/crypto/hash/merkle_tree.go CalcMerkleRoot), over an abstract
-two-to-one hash `h2`; used only to state why the duplicate check is needed. -/
+/-! ### the Merkle root function (pkg/crypto/hash/merkle_tree.go:76-103 CalcMerkleRoot, used by
+Block.ComputeMerkleRoot, pkg/core/block/block.go:62-69), over any two-to-one hash `h2` on any carrier
+`α` (`z` = the zero value returned for an empty list). The driver instantiates it with
+`α = Bytes`, `h2 a b = SHA-256(SHA-256(a ++ b))` and compares with the node's MerkleRoot check. -/
 
 /-- one level: pairs are hashed together, the last element of an odd level with itself -/
-def merkleLevel (h2 : Nat → Nat → Nat) : List Nat → List Nat
+def merkleLevel {α : Type} (h2 : α → α → α) : List α → List α
   | [] => []
   | [a] => [h2 a a]
   | a :: b :: rest => h2 a b :: merkleLevel h2 rest
 
-def calcMerkle (h2 : Nat → Nat → Nat) : Nat → List Nat → Nat
-  | _, [] => 0
+def calcMerkle {α : Type} (h2 : α → α → α) (z : α) : Nat → List α → α
+  | _, [] => z
   | _, [a] => a
-  | 0, _ => 0
-  | fuel + 1, l => calcMerkle h2 fuel (merkleLevel h2 l)
+  | 0, _ => z
+  | fuel + 1, l => calcMerkle h2 z fuel (merkleLevel h2 l)
 
-def merkleRoot (h2 : Nat → Nat → Nat) (l : List Nat) : Nat := calcMerkle h2 l.length l
+def merkleRoot {α : Type} (h2 : α → α → α) (z : α) (l : List α) : α := calcMerkle h2 z l.length l
 
 end NeoModel.AddBlock
